@@ -297,8 +297,12 @@ func verif_contract_fastlog_Line_Bytes(l *Line, name string, value []byte) *Line
 // ---------- truncating appenders: for ANY value length, no panic, index stays inside ----------
 
 func verif_inv_fastlog_Line_ByteArray_1(l *Line, rangeindex int, value []byte) bool {
-	return l != nil && -1 <= rangeindex && rangeindex < len(value) && 0 <= l.index &&
-		l.index+3*(len(value)-rangeindex-1)+1 <= bufSize
+	// (bounds first: the sum below is machine arithmetic)
+	if l == nil || rangeindex < -1 || rangeindex >= len(value) || l.index < 0 || l.index > bufSize || len(value) > bufSize {
+		return false
+	}
+	room := l.index + 3*(len(value)-rangeindex-1) + 1
+	return room <= bufSize && l.index >= 3*(rangeindex+1) // (three characters were written per byte so far)
 }
 func verif_dec_fastlog_Line_ByteArray_1(rangeindex int, value []byte) int {
 	return len(value) - rangeindex
